@@ -327,6 +327,11 @@ def run_tree(ctx, spec, rng, again=True):
                         live = getattr(tr, name)(live)
             except (Exception, probe.StepBudgetExceeded):
                 live = None     # judged where the transformations are the subject
+        if live is not None and not live.children:
+            # a one-token sentence collapsed into a bare token: not a tree
+            # with a root constituent any more (the shape is left unjudged
+            # throughout, see ASSUMPTIONS of C01)
+            live = None
         if live is not None:
             defects, m = model.snapshot(live)
             if not defects:
